@@ -169,3 +169,39 @@ var c17Lookup = hx.Register(&hx.Check[c17LookupCase]{
 	Gen:  c17LookupGen,
 	Run:  c17LookupRun,
 })
+
+// ---- the order as a where= filter shows it --------------------------------------------------------
+
+type c17FilterCase struct {
+	Base   string   `json:"base"`
+	Values []string `json:"values"`
+}
+
+var c17Filter = hx.Register(&hx.Check[c17FilterCase]{
+	Name: "c17-filter-order",
+	Rule: "a list whose rows hold 2-5 values of one type (every integer width, decimal64, string, enumeration; boundary values, neighbours), read through where=<leaf> <op> <literal> for each of the six operators and each row value as the literal (complete matrix per case): the rows kept are exactly those the order of the values and their equality call for, in particular <= and >= keep the row that equals the literal; non-trivial = always (every literal equals some row)",
+	Gen: func(t *rapid.T) c17FilterCase {
+		c := c17FilterCase{Base: rapid.SampledFrom([]string{"int8", "int16", "int32", "int64", "uint8", "uint16", "uint32", "uint64", "decimal64", "string", "enumeration"}).Draw(t, "base")}
+		ty := c16Type(c.Base)
+		n := rapid.IntRange(2, 5).Draw(t, "rows")
+		for i := 0; i < n; i++ {
+			if c.Base == "string" {
+				c.Values = append(c.Values, rapid.SampledFrom([]string{"a", "b", "c", "aa", "ab", "B", "é", "10", "9", "x y", "a-b"}).Draw(t, "v"))
+			} else {
+				c.Values = append(c.Values, dm.GenValue(t, ty, "v", true))
+			}
+		}
+		return c
+	},
+	Run: func(c c17FilterCase, o *hx.Obs) {
+		o.NonTrivial()
+		for _, lit := range c.Values {
+			for _, op := range []string{"=", "!=", "<", "<=", ">", ">="} {
+				c16Run(c16Case{Base: c.Base, Op: op, Literal: lit, Values: c.Values, Unset: make([]bool, len(c.Values)), Placement: "where"}, o)
+				if o.Failed() {
+					return
+				}
+			}
+		}
+	},
+})
